@@ -89,11 +89,13 @@ def exc_name(e):
     return mod + '.' + t.__qualname__
 
 
-def canon_exc(e):
+def canon_exc(e, norm=None):
     try:
         msg = str(e)
     except Exception as e2:     # pragma: no cover
         msg = '<unprintable {}>'.format(type(e2).__name__)
+    if norm is not None:
+        msg = norm(msg)
     return exc_name(e), norm_message(msg)
 
 
